@@ -18,6 +18,48 @@ VIAS = [('wrapper', 'smape')] * 8 + [('generic', 'r2'), ('generic', 'rmspe')]
 SPECS = ['zero', 'node0', 'node=', 'node+', 'node-', 'grid']
 
 
+def small_span_curve(rng, n):
+    """large x offset AND small span (time-stamps sampled at sub-second resolution, byte addresses inside one page):
+    x_i = offset + k_i * ulp-multiple, strictly increasing, total span between 1e-13 and 1e-5 of the offset, so that any
+    relative-tolerance comparison of the end abscissae (isclose 1e-9, allclose 1e-5/1e-8) sees one point where the exact test
+    sees a segment.  Half of the curves are EXACTLY straight in binary64 (horizontal, or a power-of-two slope on the exact
+    x differences: end-point-line SMAPE is exactly 0), the others ordinary shapes carried by the tiny span."""
+    off = rng.choice([1.0e5, 4.0e6, 1.7e9, 2.0 ** 40, 1.0e15])
+    u = math.ulp(off)
+    rel = 10.0 ** rng.choice([-13, -12, -11, -10, -9.5, -9, -8, -6, -5])
+    kmax = max(1, int(off * rel / u / max(1, n - 1)))
+    ks = [0]
+    for _ in range(n - 1):
+        ks.append(ks[-1] + rng.randint(1, max(1, 2 * kmax)))
+    xs = [off + k * u for k in ks]
+    assert all(a < b for a, b in zip(xs, xs[1:]))
+    shape = rng.choice(['flat', 'pow2', 'pow2', 'line', 'convex', 'elbow', 'zigzag', 'random'])
+    oy = rng.choice([0.0, 0.0, 5.0, 2.0e6])
+    span = xs[-1] - xs[0]
+    if shape == 'flat':
+        ys = [oy + 3.0] * n
+    elif shape == 'pow2':
+        sl = 2.0 ** rng.randint(-4, 30)
+        ys = [sl * (x - xs[0]) for x in xs]                     # exact: x - x0 and the product by a power of two do not round
+    elif shape == 'line':
+        sl = rng.uniform(0.1, 5.0) / span
+        ys = [oy + 1.0 + sl * (x - xs[0]) for x in xs]          # straight up to rounding
+    elif shape == 'convex':
+        a = rng.uniform(1.0, 8.0)
+        ys = [oy + math.exp(-a * (x - xs[0]) / span) for x in xs]
+    elif shape == 'elbow':
+        c = rng.randint(0, n - 1)
+        m1, m2 = rng.randint(-16, 16) / 8.0, rng.randint(-16, 16) / 8.0
+        ys = [(m1 if i <= c else m2) * (xs[i] - xs[c]) / span for i in range(n)]
+        lo = min(ys)
+        ys = [oy + y - lo for y in ys]
+    elif shape == 'zigzag':
+        ys = [oy + float(i % 2) for i in range(n)]
+    else:
+        ys = [oy + rng.uniform(0, 10) for _ in range(n)]
+    return 'span-' + shape, [[float(x), float(y)] for x, y in zip(xs, ys)]
+
+
 def _same(a, b):
     return a == b or (a != a and b != b)
 
@@ -98,7 +140,9 @@ class C02:
                 n = rng.randint(17, nmax)
             else:
                 n = rng.randint(9, min(nmax, 16))
-            if ci % 4 == 3:
+            if ci % 5 == 4:
+                fam, pts = small_span_curve(rng, max(n, 3))
+            elif ci % 4 == 3:
                 fam, pts = gen.mrc_curve(rng, n)
                 fam = 'mrc-' + fam
             else:
@@ -181,8 +225,28 @@ class C02:
                     kmemo[(l, r)] = 'exc'
             return kmemo[(l, r)]
 
-        def walk(t1):
+        def D(l, r):
+            """the harness's own replica of the derived straightness (end-point line, left-fold SMAPE mean) — used ONLY to find
+            the ranges on which the model will ask for the detector's answer; None where it has no replica (r2)"""
+            if cost == 'r2':
+                return None
+            pt = pts[l:r]
+            x, y = pt[:, 0], pt[:, 1]
+            if x[0] - x[-1] != 0:
+                m = (y[0] - y[-1]) / (x[0] - x[-1])
+                b = y[0] - (m * x[0])
+            else:
+                b = m = 0
+            yh = x * m + b
+            terms = 2.0 * np.abs(yh - y) / (np.abs(y) + np.abs(yh) + 1e-16)
+            acc = np.float64(0.0)
+            for t in terms:
+                acc = acc + t
+            return float(acc / len(terms))
+
+        def walk(t1, SS=None):
             """the ranges the loop visits according to the oracles (the keys the model will ask for)"""
+            SS = SS or S
             stack, nodes = [(0, n)], []
             while stack and len(nodes) < 4 * n + 8:
                 l, r = stack.pop()
@@ -191,8 +255,8 @@ class C02:
                     if r - l <= 2:
                         rv = 0.0 if cost == 'rmspe' else 1.0
                     else:
-                        rv = S(l, r)
-                        if rv == 'exc':
+                        rv = SS(l, r)
+                        if rv == 'exc' or rv is None:
                             continue
                     curved = (rv < t1) if cost == 'r2' else (rv >= t1)
                     if curved:
@@ -276,7 +340,7 @@ class C02:
         def impl(p, secs):
             # the implementation under its own alarm (a run that does not return is an output, not a harness failure);
             # afterwards the harness-level alarm of core._run_one is re-armed with what is left of its budget
-            signal.setitimer(signal.ITIMER_REAL, secs)
+            signal.setitimer(signal.ITIMER_REAL, secs, 1.0)
             try:
                 if via == 'wrapper':
                     return call(mod.multi_knee, p, t1, t2)
@@ -284,7 +348,7 @@ class C02:
             except Timeout:
                 return ('exc', 'Timeout')
             finally:
-                signal.setitimer(signal.ITIMER_REAL, max(0.2, t_end - time.monotonic()))
+                signal.setitimer(signal.ITIMER_REAL, max(0.2, t_end - time.monotonic()), 1.0)
 
         m = _monitor(mkm)
         lf.smape_points, lf.linear_r2_points, mod.knee = w_smape, w_r2, w_knee
@@ -307,7 +371,7 @@ class C02:
         if n <= 8:
             keys = [(l, r) for l in range(n) for r in range(l + 1, n + 1)]
         else:
-            keys = sorted(set(walk(t1)) | set(seen_s) | set(seen_k))
+            keys = sorted(set(walk(t1)) | set(walk(t1, D)) | set(seen_s) | set(seen_k))
         stab, ktab = [], []
         for (l, r) in keys:
             if r - l > 2:
@@ -344,13 +408,14 @@ class C02:
     def emit(self, c):
         det = c['det']
         n = len(c['points'])
-        head = 'CMk %s %s %s' % (cnat(COSTC[c['cost']]), cnat(LO[det]), cnat(n))
+        head = 'CMk %s %s' % (cnat(COSTC[c['cost']]), cnat(LO[det]))
+        pts = cpts(c['points'])
         if c.get('timeout') or 'stab' not in c:
-            return '%s %s %s %s [] [] true None None None None' % (head, fl(c.get('t1', 0.0)), cnat(c['t2']), cnat(TMIN[det]))
+            return '%s %s %s %s %s [] [] true None None None None' % (head, fl(c.get('t1', 0.0)), cnat(c['t2']), cnat(TMIN[det]), pts)
         stab = clist(['(%s, %s, %s)' % (cnat(e[0]), cnat(e[1]), fl(e[2])) for e in c['stab']])
         ktab = clist(['(%s, %s, %s)' % (cnat(e[0]), cnat(e[1]), copt(e[2], cnat)) for e in c['ktab']])
-        return '%s %s %s %s %s %s %s %s %s %s %s' % (
-            head, fl(c['t1']), cnat(c['t2']), cnat(TMIN[det]), stab, ktab, cbool(c['pure']),
+        return '%s %s %s %s %s %s %s %s %s %s %s %s' % (
+            head, fl(c['t1']), cnat(c['t2']), cnat(TMIN[det]), pts, stab, ktab, cbool(c['pure']),
             copt(c['out'], cnats), copt(c['pops'], cnat), copt(c['outL'], cnats), copt(c['outR'], cnats))
 
     # ------------------------------------------------------------------ evidence
@@ -362,7 +427,7 @@ class C02:
 
     def classify(self, c):
         out = c.get('out')
-        return {'detector': c['det'], 'entry': c['via'] + '/' + c['cost'], 't1': c.get('t1kind', 'fixed'),
+        return {'detector': c['det'], 'family': c.get('family', '?'), 'entry': c['via'] + '/' + c['cost'], 't1': c.get('t1kind', 'fixed'),
                 'n': min(len(c['points']), 64) // 8 * 8, 't2-min': c['t2'] - TMIN[c['det']],
                 'knees': 'none' if out is None else min(len(out), 5),
                 'pops observed': c.get('pops') is not None,
